@@ -154,7 +154,7 @@ func c15Ops() []Op {
 }
 
 func runC15(r *ev.Run) {
-	r.Rule = "every header byte 0..99 x every value 0..255 on a valid base image per page size, judged at Open and on the re-read path of a long-lived handle (swap in, read with every operation, swap back, read again); non-trivial = a mutation that changes the reference verdict (must-reject) or a must-accept mutation of a field"
+	r.Rule = "every header byte 0..99 x every value 0..255 on a valid base image per page size, judged at Open and on the re-read path of a long-lived handle (swap in, read with every operation, swap back, read again), and as the first transaction of a handle that was opened before the change; non-trivial = a mutation that changes the reference verdict (must-reject) or a must-accept mutation of a field"
 	sizes := []int{512, 4096, 65536}
 	if r.Thorough() {
 		sizes = PageSizes
@@ -319,6 +319,32 @@ func c15One(r *ev.Run, ps int, base, hdr []byte, off, v int, ops []Op, baseRes [
 		}
 		if r.ViolationCount() > 200 {
 			return
+		}
+	}
+	// (3) the same for a handle that was opened on the valid image but has not run any transaction yet:
+	// its FIRST read meets the changed header
+	if verdict != hvDontCare {
+		mi := vpager.NewMem(base)
+		if hi, di, err := vpager.Open(mi); err == nil {
+			ei := &Env{H: hi, D: di}
+			mi.Hdr = bump(hdr, 1)
+			for i, op := range ops {
+				var res OpResult
+				op := op
+				if p := Safely(func() { res = op.Run(ei, 0) }); p != nil {
+					r.Violation("C15:reread-panic:"+field, fmt.Sprintf("%s panics on an idle handle after header change %s byte %d=%d: %v", op.Name, field, off, v, p), art)
+					break
+				}
+				r.Trans(1)
+				if verdict == hvReject && (res.Err == nil || len(res.Rows) > 0) {
+					r.Violation("C15:first-read-accepts:"+why, fmt.Sprintf("%s as the first transaction of a handle opened before the header became invalid (%s: byte %d=%d): err=%v rows=%d", op.Name, why, off, v, res.Err, len(res.Rows)), art)
+					break
+				}
+				if verdict == hvAccept && (res.Err != nil || !RowsEq(res.Rows, baseRes[i].Rows, false)) {
+					r.Violation("C15:first-read-differs:"+field, fmt.Sprintf("%s as the first transaction of a handle opened before a harmless header change (%s byte %d=%d): err=%v rows=%d want %d", op.Name, field, off, v, res.Err, len(res.Rows), len(baseRes[i].Rows)), art)
+					break
+				}
+			}
 		}
 	}
 	m.Hdr = bump(base[:100], 2)
